@@ -668,6 +668,37 @@ func TestICAOExample(t *testing.T) {
 	}
 }
 
+// TestInfoStrictDO85 is informative only.  ISO/IEC 7816-4 defines DO'85' as a
+// plain cryptogram WITHOUT padding-content indicator (only DO'87' has one);
+// the property statement and the library put the indicator 01 into both.  The
+// library itself never sends odd-INS commands with data.  This records what a
+// strictly conforming card would make of the library's DO'85'.
+func TestInfoStrictDO85(t *testing.T) {
+	if evid.Shard() != 0 {
+		return
+	}
+	for _, c := range mac.Ciphers {
+		kenc, kmac := fixedKeys(c)
+		w, err := newWorld(c, kenc, kmac, make([]byte, c.BlockLen()))
+		if err != nil {
+			evid.Infra(t, "%v", err)
+		}
+		w.chip.DO85NoIndicator = true
+		rejected := false
+		w.lk.hook = func(capdu []byte) []byte {
+			u, err := w.chip.UnwrapCommand(capdu)
+			rejected = err != nil || !bytes.Equal(u.Data, []byte{0x54, 0x02, 0x00, 0x00})
+			return []byte{0x69, 0x88}
+		}
+		w.nfc.DoAPDU(iso7816.NewCApdu(0, 0xB1, 0, 0, []byte{0x54, 0x02, 0x00, 0x00}, 256), "odd INS")
+		if rejected {
+			evid.Count("info-strict-iso-do85-card-rejects-library-do85", 1)
+		} else {
+			evid.Count("info-strict-iso-do85-card-accepts-library-do85", 1)
+		}
+	}
+}
+
 // f15Probe is the minimal instance of F15.
 func f15Probe() (exch, string) {
 	c := mac.TDES
